@@ -199,11 +199,21 @@ def check_property(pid, tier, seed):
     if n_total < min_ob and not tool_errors:
         tool_errors.append(f"{pid}: only {n_total} obligations generated, expected at least {min_ob}")
 
-    # replay files for violations
-    vio_lines = []
+    # replay files for violations.  A Kani counterexample that was replayed natively on the real code and did NOT fail
+    # there is a disagreement between the verifier's model and the real semantics (measured: Kani 0.68 / CBMC 6.11 evaluate
+    # `f64 % f64` as IEEE remainder, not Rust's fmod): the obligation is then UNDECIDED (exit 2), never an alarm.
+    vio_lines, kept = [], []
     for o in violations:
-        path, suffix = write_replay(pid, o)
+        path, suffix, repro = write_replay(pid, o)
+        if repro is False:
+            o["status"] = "undecided"
+            o["detail"] = ("counterexample does not fail when replayed natively on the real code (verifier model mismatch "
+                           f"suspected; replay file {path}) :: " + o["detail"])
+            undecided.append(o)
+            continue
+        kept.append(o)
         vio_lines.append(f"VIOLATION property={pid} replay={path}{suffix}")
+    violations = kept
 
     # ---------------------------------------------------------------------- evidence
     bounded = [{"obligation": o["name"], "bound": o["bound"]} for o in obligations if o.get("bound")]
@@ -305,6 +315,7 @@ def write_replay(pid, o):
     rec = {"property": pid, "obligation": o["name"], "engine": o["engine"], "verifier_output": o["detail"],
            "bound": o.get("bound")}
     suffix = " no-failing-input-found"
+    not_reproduced = False
     if o["engine"] == "native_bounded":
         rec["harness"] = o["harness"]
         rec["harness_files"] = o["files"]
@@ -325,12 +336,14 @@ def write_replay(pid, o):
             rec["native_replay"] = {"reproduced": repro, "output": out[-3000:]}
             if repro:
                 suffix = ""
+            elif repro is False and o.get("playback") is not None and not o.get("termination"):
+                not_reproduced = True
     else:
         rec["note"] = ("Verus gives no counterexample; the failed obligation and the verifier's diagnostics are "
                        "recorded.  Replay = re-run the obligation.")
     with open(path, "w") as fh:
         json.dump(rec, fh, indent=1)
-    return path, suffix
+    return path, suffix, (False if not_reproduced else None)
 
 
 def replay(path):
